@@ -346,7 +346,7 @@ V("C18.to_svg_with_override_size", ["C18"], "lib_entry", "to_svg_with_override_s
 V("C18.canary", ["C18"], "merge_canary", "second_pass_merge", "Merge::second_pass_merge",
   "deliberately false (engine canary)", "merge.rs", canary=True)
 
-B("C18.fragments_to_node_switches", ["C18", "C02"], CB, "bounded_fragments_to_node_switches", "CellBuffer::fragments_to_node (real style / defs / FragmentTree)",
+B("C18.fragments_to_node_switches", ["C18", "C02", "C08"], CB, "bounded_fragments_to_node_switches", "CellBuffer::fragments_to_node (real style / defs / FragmentTree)",
   "root = svg[xmlns, width=w, height=h, class=svgbob]; children = [style]? [defs]? [rect.backdrop 0,0,w,h]? ++ fragment nodes; "
   "geometry identical whatever the switches",
   "8 switch combinations x 4 canvas sizes x 0..2 line fragments x settings strings x {no legend, a legend rule} (sauron Node construction exceeds Kani: > 25 min even for concrete inputs)")
